@@ -20,8 +20,16 @@ func clone(s *spec.Spec) *spec.Spec {
 	return &c
 }
 
+// sameViolation: same class and key; for result divergences the key names the first differing accessor,
+// which legitimately changes when steps are dropped, so there the operation kind (text before "/") is compared.
 func sameViolation(r *spec.Result, v *spec.Violation) bool {
-	return r != nil && r.Status == "violation" && r.Violation.Class == v.Class && r.Violation.Key == v.Key
+	if r == nil || (r.Status != "violation" && r.Status != "stuck") || r.Violation == nil || r.Violation.Class != v.Class {
+		return false
+	}
+	if v.Class == "RESULT_DIVERGED" {
+		return true
+	}
+	return r.Violation.Key == v.Key
 }
 
 func multiTask(s *spec.Spec) bool { return len(s.Tasks) > 1 }
@@ -46,6 +54,9 @@ func tryRepro(cand *spec.Spec, v *spec.Violation, attempts int) (*spec.Spec, *sp
 			return c, r
 		}
 		debugErr(c, err)
+		if err != nil || r.Status == "stuck" {
+			break // every further attempt would cost a watchdog period
+		}
 	}
 	return nil, nil
 }
@@ -267,6 +278,11 @@ func pruneUniverse(s *spec.Spec) {
 func shrinkAndSave(p *propDef, o *outcome, ks []known) string {
 	t0 := time.Now()
 	v := o.r.Violation
+	if v.Class == "NO_PROGRESS" {
+		// every reproduction costs a full watchdog period: use a short one while searching, the full one to verify
+		workerEnv = []string{"VERIF_WATCHDOG_S=12"}
+		defer func() { workerEnv = nil }()
+	}
 	orig := sizeOf(o.s)
 	orig["switches"] = int(o.r.Switches)
 	cur := clone(o.s)
@@ -341,6 +357,7 @@ func shrinkAndSave(p *propDef, o *outcome, ks []known) string {
 	_ = curRes
 	pruneUniverse(final)
 	// verify twice in fresh processes
+	workerEnv = nil
 	r1, e1 := runWorker(final, "")
 	r2, e2 := runWorker(final, "")
 	note := ""
